@@ -97,8 +97,15 @@ def run(chk, tier, replay=None):
         vs = [equiv.Variant("tsan sched %d" % s, sched="%d:100:200" % s, flavour="tsan") for s in
               [rng.randrange(1, 1 << 30) for _ in range(2 if quick else 6)]]
         tgroups.append((b, vs))
-    key_t = lambda base, v, kind: "C04|tsan-run-%s|%s" % (kind, common.feature_sig(base))
-    equiv.run_groups(chk, "C04", tgroups, key_t, hang_in_scope=True, collect_san=True, confirm_baseline=False)
+    key_t = key_of
+    # The property is about outputs and termination; race reports are root-cause evidence, not verdicts (the
+    # encoder has a long tail of racing pairs: see DESIGN.md), and the TSan runtime itself can stall while
+    # reporting, so neither reports nor watchdogs of these runs decide anything.
+    tres = equiv.run_groups(chk, "C04", tgroups, key_t, hang_in_scope=False, collect_san=False, confirm_baseline=False)
+    for (gi, vi, case, v, res, sig, prefix, extra) in tres:
+        for k, ex in res.san:
+            chk.note_set("tsan_race_pairs_observed", k)
+            chk.bump("tsan_reports")
     return chk.finish(
         rule="for each configuration: one reference run and R runs that differ only in thread schedule (seeded "
              "perturbation at every mutex/semaphore/condvar operation of the library, different probabilities and delays); "
